@@ -1,6 +1,6 @@
 (* C16 — Generated issuer keys are well-formed. *)
 From Coq Require Import ZArith List.
-From Gabi Require Import ModArith MathUtil KeyGen Workers.
+From Gabi Require Import ModArith GoSem MathUtil KeyGen Workers SquareModN.
 Import ListNotations.
 Open Scope Z_scope.
 
@@ -38,6 +38,15 @@ Theorem euler_one_is_square :
   forall p pp a, p = 2 * pp + 1 -> 0 < pp -> Z.odd pp = true -> powm p a pp = 1 ->
   powm p (powm p a ((pp + 1) / 2)) 2 = a mod p.
 Proof. exact euler_one_is_square_lem. Qed.
+
+(* ... and therefore, recombined with the Chinese remainder theorem, a square modulo n = p*q ... *)
+Theorem s_is_square_mod_n :
+  forall p pp q qp s t,
+  p = 2 * pp + 1 -> q = 2 * qp + 1 -> 0 < pp -> 0 < qp -> Z.odd pp = true -> Z.odd qp = true ->
+  powm p s pp = 1 -> powm q s qp = 1 ->
+  crt (powm p s ((pp + 1) / 2)) p (powm q s ((qp + 1) / 2)) q = Ok t ->
+  powm (p * q) t 2 = s mod (p * q).
+Proof. exact square_mod_product_lem. Qed.
 
 (* ... Z and R_i are powers of S (so they lie in the subgroup it generates) and powers of a square
    are squares ... *)
